@@ -262,6 +262,11 @@ func genBlock(g *sim.Stream) *blockProg {
 			main.WriteString("for { cs <- 2 }\n")
 		}
 	}
+	if g.Chance(1, 5) {
+		// a thread that has come and gone before anything blocks
+		bg.Shapes = append(bg.Shapes, "finished-thread")
+		main.WriteString([]string{"spawn(func() { return 1 }).wait()\n", "tdone := spawn(func(a) { tick(); return a }, 2)\ntdone.wait()\n", "[1, 2].each(func(x) { spawn(func() { tick() }).wait() })\n"}[g.Intn(3)])
+	}
 	p.MainReturns = p.NGoroutines > 0 && !p.SharedSenders && g.Chance(1, 6)
 	if p.MainReturns {
 		main.WriteString("tick()\n42\n")
@@ -442,8 +447,21 @@ func runC06(rc *fw.RunCtx) {
 		})
 	}
 	out := &EvalOutcome{}
+	warmStdin := prog.Stdin && g.Bool()
+	warmCtx, warmCancel := context.WithCancel(context.Background())
+	defer warmCancel()
 	s.Go("main", "main", func() {
 		guard(out, func() (object.Object, error) {
+			defer warmCancel()
+			if prog.Stdin && warmStdin {
+				// an earlier evaluation of the same tenant (same globals, same
+				// OS) looked at the standard input under a context of its own,
+				// which is still alive
+				rc.Hit("stdin_warmup")
+				if _, err := risor.Eval(warmCtx, "sin0 := os.stdin\n1", opts...); err != nil {
+					return nil, fmt.Errorf("harness: stdin warm-up: %w", err)
+				}
+			}
 			if api == 2 {
 				esrc := prog.EntrySrc
 				if prog.EntrySrcTop != "" {
